@@ -11,14 +11,14 @@ OUT=/verif/seeded/$ID
 mkdir -p "$OUT"
 /verif/tools/mkworktree.sh "$D" >/dev/null
 cp "$SRC/patch$K.diff" "$OUT/patch.diff"; cp "$SRC/demo$K.py" "$OUT/demo.py"; cp "$SRC/meta$K.json" "$OUT/author_meta.json"
-cp "$SRC/demo$K.py" "$D/demo.py"
+cp "$SRC/demo$K.py" "$D/demo.py"; cp "$SRC/demo$K.py" "$D/demo$K.py"
 rebuild() { cd "$D"; for b in jellyfysh/scheduler/heap_scheduler/heap_build.py jellyfysh/potential/merged_image_coulomb_potential/merged_image_coulomb_potential_build.py jellyfysh/potential/inverse_power_coulomb_bounding_potential/inverse_power_coulomb_bounding_potential_build.py; do /venv/bin/python $b >/dev/null 2>&1; done; }
-cd "$D/jellyfysh" && PYTHONPATH="$D" timeout 900 /venv/bin/python ../demo.py >/tmp/seedconf_$ID.clean.log 2>&1; RC_CLEAN=$?
+cd "$D/jellyfysh" && PYTHONPATH="$D" timeout 1500 /venv/bin/python ../demo$K.py >/tmp/seedconf_$ID.clean.log 2>&1; RC_CLEAN=$?
 git -C "$D" apply "$OUT/patch.diff" || { echo "patch does not apply"; exit 2; }
 TOUCHC=$(grep -c '^+++ .*\.[ch]$' "$OUT/patch.diff")
 [ "$TOUCHC" != "0" ] && rebuild
 cd "$D" && TESTS=$(timeout 1500 /venv/bin/python -m pytest -q -p no:cacheprovider --timeout=900 -n 8 2>&1 | tail -1)
-cd "$D/jellyfysh" && PYTHONPATH="$D" timeout 900 /venv/bin/python ../demo.py >/tmp/seedconf_$ID.mut.log 2>&1; RC_MUT=$?
+cd "$D/jellyfysh" && PYTHONPATH="$D" timeout 1500 /venv/bin/python ../demo$K.py >/tmp/seedconf_$ID.mut.log 2>&1; RC_MUT=$?
 cd /verif
 CHECKS=""
 for c in "$P" "$@"; do
